@@ -46,16 +46,49 @@ def region_table(entries, sig=b"regi"):
     return b.ljust(KB64, b"\0")
 
 
-def parent_locator(entries: dict, locator_type=G_VHDX_LOCATOR):
+def parent_locator(entries: dict, locator_type=G_VHDX_LOCATOR, layout="pairs"):
+    """layout: "pairs" key0 value0 key1 value1 ... (what Hyper-V writes) | "keys-first" | "values-first" | "aligned" (8-byte aligned
+    strings with gaps) | "shared" (equal values stored once).  Offsets are relative to the start of the item."""
     n = len(entries)
     hdr = locator_type.bytes_le + struct.pack("<HH", 0, n)
-    table = b""
-    blob = b""
     base = len(hdr) + 12 * n
-    for k, v in entries.items():
-        kb, vb = k.encode("utf-16-le"), v.encode("utf-16-le")
-        table += struct.pack("<IIHH", base + len(blob), base + len(blob) + len(kb), len(kb), len(vb))
-        blob += kb + vb
+    items = [(k.encode("utf-16-le"), v.encode("utf-16-le")) for k, v in entries.items()]
+    blob = b""
+    koff, voff = [], []
+
+    def put(b, align=1, gap=0):
+        nonlocal blob
+        blob += bytes(gap)
+        if align > 1:
+            blob += bytes((-(base + len(blob))) % align)
+        off = base + len(blob)
+        blob += b
+        return off
+
+    if layout == "pairs":
+        for kb, vb in items:
+            koff.append(put(kb))
+            voff.append(put(vb))
+    elif layout == "keys-first":
+        koff = [put(kb) for kb, _ in items]
+        voff = [put(vb) for _, vb in items]
+    elif layout == "values-first":
+        voff = [put(vb) for _, vb in items]
+        koff = [put(kb) for kb, _ in items]
+    elif layout == "aligned":
+        for kb, vb in items:
+            koff.append(put(kb, 8, 2))
+            voff.append(put(vb, 8, 6))
+    elif layout == "shared":
+        seen = {}
+        for kb, vb in items:
+            koff.append(put(kb))
+            if vb not in seen:
+                seen[vb] = put(vb)
+            voff.append(seen[vb])
+    else:
+        raise ValueError(layout)
+    table = b"".join(struct.pack("<IIHH", koff[i], voff[i], len(items[i][0]), len(items[i][1])) for i in range(n))
     return hdr + table + blob
 
 
@@ -78,7 +111,7 @@ def bat_entry(state, mb):
 
 def build(blocks, *, block_size, sector_size=512, disk_size, has_parent=False, locator=None, bitmaps=None, seqs=(5, 6),
           data_base_mb=None, file_id=0, sigs=None, name=None, disk_id=None, phys_sector=4096, bat_mb=3, meta_mb=2,
-          omit_items=(), omit_regions=(), locator_type=G_VHDX_LOCATOR, reserved_bits=0, leave_alloc=False):
+          omit_items=(), omit_regions=(), locator_type=G_VHDX_LOCATOR, reserved_bits=0, leave_alloc=False, locator_layout="pairs"):
     """blocks: list over real payload blocks of (state, position|None); position = index of the block-sized slot in the
     data area.  bitmaps: {chunk_index: (position_mb_slot, bytes)} for sector-bitmap blocks (differencing).
     Returns (VirtualFile, info)."""
@@ -124,7 +157,7 @@ def build(blocks, *, block_size, sector_size=512, disk_size, has_parent=False, l
         (G_PSS, struct.pack("<I", phys_sector), 0x6),
     ]
     if has_parent:
-        allitems.append((G_PARENT_LOC, parent_locator(locator or {}, locator_type), 0x4))
+        allitems.append((G_PARENT_LOC, parent_locator(locator or {}, locator_type, locator_layout), 0x4))
     for it in allitems:
         if it[0] not in omit_items:
             items.append(it)
